@@ -188,6 +188,156 @@ def written : List EncOp → List UInt8
   | .write c :: rest => c ++ written rest
   | .flush :: rest => written rest
 
+/-! ## the encoder over an arbitrary inner writer
+
+`Enc` above is the encoder over a `Vec<u8>`, whose `write` always takes everything. For any other
+`io::Write` the hand-over of a finished group matters: the code uses `self.inner.write_all(&dst)?`, i.e. all
+four symbols arrive in the inner writer or an error is returned. `Sink` is an inner writer whose `write` may
+accept only a prefix of the buffer (`sched`/`tail` as for `Reader`: `0` = the call fails with `Interrupted`,
+`m+1` = at most `m+1` bytes are accepted; after the schedule at most `tail` per call, `0` = no restriction)
+and that may be full (`room = some r`: `r` more bytes fit, then `write` returns `Ok(0)`, like
+`Cursor<&mut [u8]>` at its end). `writeAll` is the loop of `std::io::Write::write_all`. After an I/O error the
+run ends (the caller gives up; the encoder is not used any further). -/
+
+structure Sink where
+  /-- everything the inner writer has accepted so far -/
+  arrived : List UInt8
+  sched : List Nat
+  tail : Nat
+  room : Option Nat
+deriving Repr, DecidableEq
+
+inductive WrRes where
+  | interrupted
+  | accepted (n : Nat)
+deriving Repr, DecidableEq
+
+/-- how many bytes of a buffer of `len` bytes a call with per-call maximum `per` accepts -/
+def Sink.take (s : Sink) (per len : Nat) : Nat :=
+  match s.room with
+  | none => min len per
+  | some r => min (min len per) r
+
+/-- one `write(buf)` call on the inner writer -/
+def Sink.write (s : Sink) (buf : List UInt8) : WrRes × Sink :=
+  match s.sched with
+  | 0 :: rest => (.interrupted, { s with sched := rest })
+  | (m + 1) :: rest =>
+    let k := s.take (m + 1) buf.length
+    (.accepted k, { s with arrived := s.arrived ++ buf.take k, sched := rest, room := s.room.map (· - k) })
+  | [] =>
+    let k := s.take (if s.tail = 0 then buf.length else s.tail) buf.length
+    (.accepted k, { s with arrived := s.arrived ++ buf.take k, room := s.room.map (· - k) })
+
+theorem Sink.write_sched_le (s : Sink) (buf : List UInt8) : (s.write buf).2.sched.length ≤ s.sched.length := by
+  unfold Sink.write; split <;> simp_all
+
+theorem Sink.write_interrupted (s s' : Sink) (buf : List UInt8) (h : s.write buf = (.interrupted, s')) :
+    s'.sched.length < s.sched.length := by
+  unfold Sink.write at h; split at h <;> simp_all
+  · obtain ⟨_, rfl⟩ := h; simp_all
+
+theorem Sink.take_le (s : Sink) (per len : Nat) : s.take per len ≤ len := by
+  unfold Sink.take; split <;> omega
+
+theorem Sink.write_accepted_le (s s' : Sink) (buf : List UInt8) (k : Nat) (h : s.write buf = (.accepted k, s')) :
+    k ≤ buf.length := by
+  unfold Sink.write at h
+  split at h
+  · simp at h
+  · simp only [Prod.mk.injEq, WrRes.accepted.injEq] at h; rw [← h.1]; exact Sink.take_le ..
+  · simp only [Prod.mk.injEq, WrRes.accepted.injEq] at h; rw [← h.1]; exact Sink.take_le ..
+
+/-- `io::Write::write_all`: `true` = `Ok(())`, `false` = an error (`WriteZero`) -/
+def Sink.writeAll (s : Sink) (buf : List UInt8) : Bool × Sink :=
+  if hb : buf.length = 0 then (true, s)                          -- while !buf.is_empty()
+  else
+    match h : s.write buf with
+    | (.interrupted, s') => Sink.writeAll s' buf               -- Interrupted => {}
+    | (.accepted 0, s') => (false, s')                         -- Ok(0) => return Err(WriteZero)
+    | (.accepted (k + 1), s') => Sink.writeAll s' (buf.drop (k + 1))   -- Ok(n) => buf = &buf[n..]
+termination_by s.sched.length + buf.length
+decreasing_by
+  · have := Sink.write_interrupted s s' buf h; omega
+  · have h1 := Sink.write_sched_le s buf; rw [h] at h1
+    have h2 := Sink.write_accepted_le s s' buf (k + 1) h
+    simp only [List.length_drop] at *; omega
+
+/-- `Base64Encoder<W>` for an arbitrary inner writer -/
+structure EncS where
+  inner : Sink
+  buffer : Buf3
+  size : Nat
+deriving Repr, DecidableEq
+
+def EncS.new (inner : Sink) : EncS := { inner := inner, buffer := ⟨0, 0, 0⟩, size := 0 }
+
+/-- outcome of an operation of the encoder over a sink; on an I/O error what has arrived so far is kept -/
+inductive SinkRes (α : Type) where
+  | ok (v : α)
+  | ioerr (inner : Sink)
+  | panic
+deriving Repr, DecidableEq
+
+/-- body of the `for b in buf` loop of `write`, the group handed over with `write_all` -/
+def writeByteS (e : EncS) (b : UInt8) : SinkRes EncS :=
+  match e.buffer.set e.size b with
+  | none => .panic
+  | some buffer =>
+    let size := e.size + 1
+    if size = 3 then
+      match encode3 buffer.b0 buffer.b1 buffer.b2 with
+      | none => .panic
+      | some dst =>
+        match e.inner.writeAll dst with                         -- self.inner.write_all(&dst)?
+        | (false, inner) => .ioerr inner
+        | (true, inner) => .ok { inner := inner, buffer := buffer, size := 0 }
+    else .ok { e with buffer := buffer, size := size }
+
+def writeS (e : EncS) : List UInt8 → SinkRes EncS
+  | [] => .ok e
+  | b :: rest =>
+    match writeByteS e b with
+    | .panic => .panic
+    | .ioerr s => .ioerr s
+    | .ok e' => writeS e' rest
+
+/-- a sequence of `write` / `flush` calls (the sink's `flush` succeeds and changes nothing) -/
+def runOpsS (e : EncS) : List EncOp → SinkRes EncS
+  | [] => .ok e
+  | .write c :: rest =>
+    match writeS e c with
+    | .panic => .panic
+    | .ioerr s => .ioerr s
+    | .ok e' => runOpsS e' rest
+  | .flush :: rest => runOpsS e rest
+
+/-- `finish`: the inner writer is handed back -/
+def finishS (e : EncS) : SinkRes Sink :=
+  if e.size > 3 then .panic
+  else
+    match e.buffer.toList.take e.size with
+    | [] => .ok e.inner
+    | [s0] =>
+      match encode1 s0 with
+      | none => .panic
+      | some dst => match e.inner.writeAll dst with | (false, s) => .ioerr s | (true, s) => .ok s
+    | [s0, s1] =>
+      match encode2 s0 s1 with
+      | none => .panic
+      | some dst => match e.inner.writeAll dst with | (false, s) => .ioerr s | (true, s) => .ok s
+    | s0 :: s1 :: s2 :: _ =>
+      match encode3 s0 s1 s2 with
+      | none => .panic
+      | some dst => match e.inner.writeAll dst with | (false, s) => .ioerr s | (true, s) => .ok s
+
+/-- `new(sink)`, the given `write` / `flush` calls, `finish` -/
+def encodeOpsS (inner : Sink) (ops : List EncOp) : SinkRes Sink :=
+  match runOpsS (EncS.new inner) ops with
+  | .panic => .panic
+  | .ioerr s => .ioerr s
+  | .ok e => finishS e
+
 /-! ## the underlying reader -/
 
 structure Reader where
@@ -406,6 +556,8 @@ def showOutcome : Outcome → String
 /--
 * `enc <chunk>…`                 model of new / write(chunk)… / finish   → `ok <hex>` | `panic`
 * `encops <chunk|flush>…`        the same with `flush` calls in between  → `ok <hex>` | `panic`
+* `encsink <sched> <tail> <room|-> <chunk|flush>…`  the same over a sink with short writes; answers with what
+                                 arrived in the sink                      → `ok <hex>` | `ioerr <hex>` | `panic`
 * `dec <text> <sched> <tail> <sizes>`   model of one `read` per size       → trace joined by `,`
 * `all <text> <sched> <tail> <sizes>`   `readAll`                           → `eof <hex>` | `error <hex>` | …
 * `spec <data>`                  `rfcEncode`                                → `<hex>`
@@ -419,6 +571,15 @@ def handle : List String → String
     match toks.mapM (fun t => if t == "flush" then some EncOp.flush else (unhex t).map EncOp.write) with
     | some ops => showEnc (encodeOps ops)
     | none => "bad-op"
+  | "encsink" :: sc :: tl :: rm :: toks =>
+    match natList? sc, tl.toNat?, (if rm == "-" then some none else rm.toNat?.map some),
+          toks.mapM (fun t => if t == "flush" then some EncOp.flush else (unhex t).map EncOp.write) with
+    | some sc, some tl, some rm, some ops =>
+      match encodeOpsS ⟨[], sc, tl, rm⟩ ops with
+      | .ok s => "ok " ++ hex s.arrived
+      | .ioerr s => "ioerr " ++ hex s.arrived
+      | .panic => "panic"
+    | _, _, _, _ => "bad-op"
   | ["dec", t, s, tl, z] =>
     match unhex t, natList? s, tl.toNat?, natList? z with
     | some t, some s, some tl, some z =>
